@@ -44,8 +44,8 @@ Section CovRef.
     ustr_eqb p p' = true -> ver_eqb v v' = true -> SA (KId p v) (KId p' v').
   Proof.
     intros Ep Ev x pv hc n H. apply ustr_eqb_eq in Ep. apply ver_eqb_eq in Ev. subst p' v'.
-    simpl in H. destruct x; try discriminate. inv_bind H. destruct a. inversion Hb; subst.
-    split; [auto|split; [exact I|]]. simpl. eapply validate_id_valid; eauto.
+    cbn [clean_kind] in H. destruct x; try discriminate. inv_bind H. destruct a. inversion Hb; subst.
+    split; [auto|split; [exact I|]]. change (valid_id v (Some p) s = true). eapply validate_id_valid; eauto.
   Qed.
 
   (* ---- ReferenceProperty ---- *)
@@ -95,16 +95,16 @@ Section CovRef.
     intros Hr x pv hc n H. simpl in Hr.
     apply andb_true_iff in Hr. destruct Hr as [Hr Hsub]. apply andb_true_iff in Hr. destruct Hr as [Hw Hv].
     apply ver_eqb_eq in Hv. subst v'. apply eqb_prop in Hw. subst wh'.
-    simpl in H. unfold clean_reference in H. inv_bind H. inv_bind Hb. destruct a0.
+    cbn [clean_kind] in H. unfold clean_reference in H. inv_bind H. inv_bind Hb. destruct a0.
     cbn [andb] in Hbb.
     destruct (validate_id_none_valid _ _ _ Huuid Hba) as [rest [Hsplit Hu]].
     set (t := fst (split_dashdash a)) in *.
     match type of Hbb with (if negb ?ok then _ else _) = _ => destruct ok eqn:Eok; cbn [negb] in Hbb; try discriminate end.
     match type of Hbb with (if ?b then _ else _) = _ => destruct b eqn:Ehc; try discriminate end.
-    inversion Hbb; subst pv hc. clear Hbb.
-    cbn [negb andb] in Ehc. apply orb_false_iff in Ehc. destruct Ehc as [Eobj Ex].
+    injection Hbb as <- <-.
+    cbn [negb andb] in Ehc. split; [exact Ehc|split; [exact I|]].
+    apply orb_false_iff in Ehc. destruct Ehc as [Eobj Ex].
     apply negb_false_iff in Eobj. rewrite is_object_spec in Eobj.
-    split; [auto|split; [exact I|]].
     change (valid_ref sp wh g' s' v a = true). unfold valid_ref.
     apply andb_true_iff. split.
     - unfold valid_id. destruct (split_dashdash a) as [t0 o] eqn:Es. simpl in Hsplit. subst o.
